@@ -93,6 +93,9 @@ def run(ctx):
         check_case(ctx, r, True)
     for r in reversed(recs):
         check_case(ctx, r, False)
+    # the null literal (not a type of the typed generator): its inferred type is Null or unknown, and it is not accepted
+    # where a specific other kind is required
+    check_case(ctx, {"tree": ["Lit", "Null", "null"], "type": "Null", "nops": 0}, True)
     ctx.exhaustive = True
 
 
